@@ -207,7 +207,8 @@ theorem chkTars_refines (oracle : Bytes → Bool) (b : Bytes) :
     rw [hf]
     generalize be b 0 tars_lenFieldSize = n
     by_cases h2 : n < tars_minPackageLength ∨ n > tars_maxPackageLength
-    · simp only [h2, ↓reduceIte]; rfl
+    · simp only [h2, ↓reduceIte]
+      split <;> rfl
     · simp only [h2, ↓reduceIte]
       by_cases h3 : b.length < n
       · simp only [h3, ↓reduceIte]; rfl
